@@ -44,6 +44,8 @@ type Actor struct {
 	Fin   int    `json:"fin"`
 	Cond  Cond   `json:"cond"`
 	Val   string `json:"val"`
+	// FailWatch (ctx actors, wrap variant): 0 = never; n > 0 = the watch behind the helper fails after n-1 delivered events.
+	FailWatch int `json:"failwatch,omitempty"`
 }
 
 // Plan is a C03 plan.
@@ -80,6 +82,10 @@ func Gen(variant string) func(t *rapid.T) Plan {
 				Owner: rapid.SampledFrom([]int{3, 3, 3, 3, 0, 1}).Draw(t, "aowner"),
 				Fin:   rapid.IntRange(0, 2).Draw(t, "fin"),
 				Val:   rapid.SampledFrom([]string{"v1", "v2"}).Draw(t, "val"),
+			}
+
+			if a.K == "ctx" && rapid.IntRange(0, 2).Draw(t, "hasfail") == 0 {
+				a.FailWatch = rapid.IntRange(1, 3).Draw(t, "failwatch")
 			}
 
 			if a.K == "watchfor" {
@@ -200,13 +206,18 @@ func runBubble(p Plan) (v hk.Verdict) {
 	s := sim.NewSched(inner)
 
 	var (
-		mkState func(actor string) state.State
+		mkState func(actor string, failWatch int) state.State
 		cleanup = func() {}
 	)
 
 	switch p.Variant {
 	case "wrap":
-		mkState = func(actor string) state.State { return state.WrapCore(s.Proxy(actor)) }
+		mkState = func(actor string, failWatch int) state.State {
+			px := s.Proxy(actor)
+			px.FailWatchAfter = failWatch - 1
+
+			return state.WrapCore(px)
+		}
 	default:
 		ms, cl, err := grpcVariant(p.Variant, s)
 		if err != nil {
@@ -217,7 +228,7 @@ func runBubble(p Plan) (v hk.Verdict) {
 			return v
 		}
 
-		mkState, cleanup = ms, cl
+		mkState, cleanup = func(actor string, _ int) state.State { return ms(actor) }, cl
 	}
 
 	// initial state, written directly (not scheduler steps) but logged as commits via a setup proxy
@@ -277,7 +288,7 @@ func runBubble(p Plan) (v hk.Verdict) {
 
 		ctx, cancel := context.WithCancel(root)
 		as.cancel = cancel
-		st := mkState(as.name)
+		st := mkState(as.name, a.FailWatch)
 		ptr := resource.NewMetadata(as.key.NS, as.key.Typ, as.key.ID, resource.VersionUndefined)
 
 		go func() {
@@ -553,6 +564,15 @@ func runBubble(p Plan) (v hk.Verdict) {
 			for _, c := range commits[wat.At:] {
 				if c.New.Key == as.key && (c.Kind == model.Destroyed || c.New.Phase == 1) {
 					want = true
+				}
+			}
+
+			// ... or the watch behind the helper failed
+			for _, h := range myHands {
+				if h.Event.Type == state.Errored {
+					want = true
+
+					v.Label("ctx-watch-failed")
 				}
 			}
 
